@@ -33,12 +33,21 @@ RULE = ("real static squareroot() of qmail-send.c on every age in [0,2^%(sq)s) p
         "middle of a pass with every delivery slot taken (concurrency 1-3 from the control file or from the spawner's byte, more "
         "recipients than slots) while entries on the other channel's heap, on its own heap, in pqdone (bounce injection scripted to "
         "fail: now+SLEEP_SYSFAIL) and in pqfail (one stat() of the start-up scan fails with EIO, found by a pre-run) become due at "
-        "spread-out times, plus later arrivals through todo/, ALRM, short lifetimes, and a fifth of the scenarios without a busy channel; "
+        "spread-out times, plus later arrivals through todo/, ALRM, short lifetimes, a fifth of the scenarios without a busy channel, and in "
+        "two fifths one or two CLEAN STOPS at arbitrary virtual times (TERM; deliveries in flight go on and report when their duration is "
+        "over, the daemon waits for them and exits 0 - often with a pass still open; a new daemon is started on the same queue, optionally "
+        "after some downtime); "
         "at every select the daemon's globals are read and printed with the timeout the real code passed and the clock at which select "
         "returned (oracle = executable form of theorem C15_sleep_not_through on these values: the daemon never wakes more than SLEEP_FUZZ "
         "after the due time of an entry it could start - head of the heap of a channel that is not mid-pass with a job slot free, head of "
-        "pqfail, head of pqdone - having really slept; a daemon that uses up its select budget is reported too; correspondence: the "
-        "timeout equals Nq.SelPrep.timeout of the snapshot at every select). ASan+UBSan build of the working tree. "
+        "pqfail, head of pqdone - having really slept; a daemon that uses up its select budget is reported too; after ALRM every channel "
+        "heap head is due; BACK-OFF ACROSS DAEMON PROCESSES, black box on the delivery commands and reports: a recipient reported Z in a pass "
+        "whose retry time is R (jo.retry, printed with each command) is not started again before R by this or any later daemon unless ALRM "
+        "intervened - this is what found the TERM-mid-pass defect fixed in /repo be3a18d; correspondence: the timeout equals "
+        "Nq.SelPrep.timeout of the snapshot at every select, and jo.retry / flagdying of every command equal Nq.Sched.jobOpen at the "
+        "`recent` of the moment the pass was OPENED (first select showing pass[c] open), for the messages whose birth the scenario fixes). "
+        "Crash restarts (L without f) in hand-written S cases: every existing channel file must be scheduled again, at its persisted "
+        "mtime where the history fixes it. ASan+UBSan build of the working tree. "
         "non-trivial = in-domain root evaluations + retry cases + distinct op sequences of length >= 3 + distinct histories + distinct pqfail scenarios "
         "+ distinct select-loop scenarios")
 
@@ -225,6 +234,8 @@ def main():
         "system failures are injected by wrapping stat/unlink/open_read inside the included qmail-send.c (EIO on chosen paths); the paths 'trouble reading' (getln fails mid-pass) and 'unknown record type' are covered by theorem C15_jobclose (hiteof=false) but not driven by the harness; utimes failure in pqfinish and messdone's own failure path (pqdone re-insertion) are outside the model",
         "nextretry overflow: C signed overflow is undefined behaviour; the complement theorem C15_overflow_wraps describes the two's-complement result, which is not exercised on the UBSan build",
         "the history harness (S cases) drives pass_dochan/del_dochan/pqrun/pqfinish/pqstart directly; main()'s select loop is exercised by the W scenarios (real main() under qsim), where time passes only inside select(): the clock read by recent = now() is the clock at which select() is entered",
+        "history-level theorems C15_hist_* treat a pass as ONE step (opened, all recipients answered, job_close at one clock value; a free job slot; started/passes: no fault, clock standing still): interrupted passes - clock, other channel, reports of other jobs, TERM+exit+restart while a pass is open - are the subject of C15_pass_* over Nq.SchedPass.pstep (no faults there; back-off time = the one computed when the job was opened); the fine-grained model is tied to the code by the W scenarios (jobOpen at open time compared per command; exit behaviour by the black-box back-off oracle), not by a step-by-step replay",
+        "arrivals (Step.arrive / BStep.arrive = todo_do) are model-only at S level (the function-level harness has no qmail-clean to run todo_do against); real arrivals run in the W scenarios",
         "the model of the select preparation (Nq.SelPrep: timeout, wake-up time) is the one of C16; C15 imports it read-only, states the promptness theorems C15_sleep_* over it and compares it with the real timeout at every select of the W scenarios",
         "select-loop snapshot: between recent = now() and select() the main loop only runs the *_selprep functions, which do not write the globals they read; the struct mirrors in harness/c15_loop.c (pass[].id, jo[].refs) follow qmail-send.c",
     ]
